@@ -35,7 +35,7 @@ HasFlagViol(k) == k \in {"blp", "wdl"}
 \* pre-states of the output location: every producer on valid input meets all of them
 Pres(f, c, inp) == IF Producer(f, c) /\ inp = "valid" THEN PreStates ELSE {"empty"}
 
-VariantsFor(k, inp) == IF inp = "flagviol" THEN (IF Thorough THEN 0..2 ELSE {SeedN % 3}) ELSE Variants(k)
+VariantsFor(k, inp) == IF inp = "flagviol" THEN 0..2 ELSE Variants(k)     \* all flag-violating shapes (one dimension, the other, both) in every tier
 InputsFor(c, k) == {inp \in Inputs : /\ (inp = "flagviol" => (HasFlagViol(k) /\ c = "validate"))
                                      /\ (inp = "flagged" => HasFlagged(k))}
 FmtCases == UNION {UNION {UNION {
